@@ -26,6 +26,7 @@ RULE_TEXT = 'one obligation per flow clause, summary column, (tails, quantile) p
 
 def run(repo, rep, tier):
   tbrrules.tbr_aggregation(repo, rep, 'R1/information-flow')
+  tbrrules.kwarg_subdict_rule(repo, rep, 'R1/information-flow')
   tbrrules.summary_rules(repo, rep, '')
   tbrrules.distribution_rules(repo, rep, '')
   sub = type(rep)(rep.prop, rep.tier, rep.repo)
@@ -34,4 +35,10 @@ def run(repo, rep, tier):
     if i.rule.startswith('R1/calibration') or i.rule.startswith('R4/'):
       i.rule = 'R6/' + i.rule.split('/', 1)[1] if i.rule.startswith('R4/') else 'R5/design-side-closed-form'
       rep.instances.append(i)
+  sub = type(rep)(rep.prop, rep.tier, rep.repo)
+  c08.r5_inputs_copied(repo, sub, c08.CLASS)
+  c08.r4_reads_do_not_mutate(repo, sub, c08.CLASS)
+  for i in sub.instances:
+    i.rule = 'R6/' + i.rule.split('/', 1)[1]
+    rep.instances.append(i)
   rep.assume('level in [0, 1] (guard in TBR.summary), tails in {1, 2} (guard); scipy.stats.t.ppf is monotone in p')
